@@ -5,12 +5,12 @@
 EXTENDS SyncSem, Json, Randomization
 
 GenLeaves == {"i1.name", "i1.val", "i2.name", "i2.val", "pl.a", "pl.ab", "s.host", "s.hostname", "s.tags", "s.uptime", "i1.oper", "c.x", "c.z"}
-DelNodes == {"item[k1]", "item[k2]", "item[k1]/val", "plain/a", "plain", "sys/host", "sys", "ch/alpha", "item"}
+DelNodes == {"item[k1]", "item[k2]", "item[k1]/val", "plain/a", "plain", "sys/host", "sys", "ch/alpha", "item", "item[k1]/oper", "sys/uptime"}
 KeyClose(S) == S \cup (IF S \cap {"i1.val", "i1.oper"} # {} THEN {"i1.name"} ELSE {}) \cup (IF "i2.val" \in S THEN {"i2.name"} ELSE {})
 ValOf(l) == IF l \in UKeyLeaf THEN "key" ELSE RandomElement(UVals[l])
 Upd(S) == {<<l, ValOf(l)>> : l \in KeyClose(S)}
 RandNotif(j) == [kind |-> "notif",
-              del |-> (IF RandomElement(1..3) = 1 THEN RandomSubset(1, DelNodes) ELSE {}),
+              del |-> (IF RandomElement(1..3) = 1 THEN RandomSubset(RandomElement(1..3), DelNodes) ELSE {}),
               upd |-> Upd(RandomSubset(RandomElement(0..3), GenLeaves))]
 S == [kind |-> "start"]
 E == [kind |-> "end"]
